@@ -11,6 +11,9 @@
     identities hold as equalities of view records (`C02_identities`), a store through the derived
     view is the same store as through the source (`C02_shallow_write`), and the same for virtual
     views of either orientation (`C02_virtual_map`, `C02_virtual_compose`).
+  Channel views of basic views are built from the generated `make` bodies and `adjacent` predicate
+  (`C02_kernel_channel_*`, `C02_channel_view_map`, `C02_channel_view_compose`, `C02_channel_view_in_pixel`);
+  `color_converted_view` is a dereference adaptor (`C02_deref_adaptor`).
 -/
 import GilVerif.Model.C02
 import Mathlib.Tactic.Ring
@@ -325,5 +328,144 @@ theorem C02_virtual_compose (ts : List Xform) (v : VView) (x y : Int) :
     rw [e, ih, phiAllV, C02_virtual_map]
 
 example : (applyVirtAll [.transpose, .flipUD] ⟨0, 0, 1, 1, false, 4, 3⟩).pt 1 0 = (3, 1) := by decide
+
+/-! ### channel views of basic views: the generated `make` bodies -/
+
+/-- `__nth_channel_view_basic<View,false>::make` / `__kth_…<K,View,false>::make` (channels not adjacent): the new
+    x-iterator points at channel `n` (`K`) of pixel (0,0) and steps by the SOURCE's pixel step; rows by the source's row step -/
+theorem C02_kernel_channel_stepped (n k p r c w h a1 a2 a3 a4 a5 a6 a7 : Int) :
+    nth_channel_stepped n k p r c w h a1 a2 a3 a4 a5 a6 a7 = (0, 0, n, p, r, w, h)
+    ∧ kth_channel_stepped n k p r c w h a1 a2 a3 a4 a5 a6 a7 = (0, 0, k, p, r, w, h) := by
+  unfold nth_channel_stepped kth_channel_stepped; exact ⟨by kernel_eq, by kernel_eq⟩
+
+/-- `__nth_channel_view_basic<View,true>::make` / kth (channels adjacent: planar or single-channel, not a step
+    iterator): `interleaved_view(w, h, &channel n of pixel (0,0), row_size)` -/
+theorem C02_kernel_channel_adjacent (n k p r c w h a1 a2 a3 a4 a5 a6 a7 : Int) :
+    nth_channel_adjacent n k p r c w h a1 a2 a3 a4 a5 a6 a7 = (0, 0, n, c, r, w, h)
+    ∧ kth_channel_adjacent n k p r c w h a1 a2 a3 a4 a5 a6 a7 = (0, 0, k, c, r, w, h) := by
+  unfold nth_channel_adjacent kth_channel_adjacent; exact ⟨by kernel_eq, by kernel_eq⟩
+
+/-- the `adjacent` predicate: not a step iterator, and planar or single-channel -/
+theorem C02_kernel_channel_is_adjacent (s pl nch : Int) :
+    nth_channel_is_adjacent s pl nch = (if s = 0 ∧ (pl ≠ 0 ∨ nch = 1) then 1 else 0)
+    ∧ kth_channel_is_adjacent s pl nch = (if s = 0 ∧ (pl ≠ 0 ∨ nch = 1) then 1 else 0) := by
+  unfold nth_channel_is_adjacent kth_channel_is_adjacent
+  constructor <;> (split_ifs <;> first | rfl | (exfalso; omega) | (exfalso; simp_all))
+
+/-- **channel views are exact**: pixel (x,y) of `nth_channel_view(v, n)` / `kth_channel_view<n>(v)` of a basic view is
+    channel `n` of source pixel (x,y) -- address = source address + `chanAddr n`, same pixel step, row step and dimensions
+    (`= nthChannel (chanAddr n) v` as records).  `hadj`: a NON-step x-iterator of a planar or single-channel view steps by one channel. -/
+theorem C02_channel_view_map (kth : Bool) (t : ChanSrc) (chanAddr : Int → Int) (n : Int) (v : View)
+    (hadj : t.isStep = false → (t.planar = true ∨ t.nch = 1) → v.xs = t.chanSize) :
+    chanViewMem kth t chanAddr n v = nthChannel (chanAddr n) v
+    ∧ ∀ x y, (chanViewMem kth t chanAddr n v).addr x y = v.addr x y + chanAddr n := by
+  have main : chanViewMem kth t chanAddr n v = nthChannel (chanAddr n) v := by
+    obtain ⟨s1, s2⟩ := C02_kernel_channel_stepped n n v.xs v.ys t.chanSize v.w v.h 0 0 0 0 0 0 0
+    obtain ⟨s1', _⟩ := C02_kernel_channel_stepped n 0 v.xs v.ys t.chanSize v.w v.h 0 0 0 0 0 0 0
+    obtain ⟨_, s2'⟩ := C02_kernel_channel_stepped 0 n v.xs v.ys t.chanSize v.w v.h 0 0 0 0 0 0 0
+    obtain ⟨a1', _⟩ := C02_kernel_channel_adjacent n 0 v.xs v.ys t.chanSize v.w v.h 0 0 0 0 0 0 0
+    obtain ⟨_, a2'⟩ := C02_kernel_channel_adjacent 0 n v.xs v.ys t.chanSize v.w v.h 0 0 0 0 0 0 0
+    obtain ⟨j1, j2⟩ := C02_kernel_channel_is_adjacent (b2i t.isStep) (b2i t.planar) t.nch
+    unfold chanViewMem chanArgs nthChannel
+    rw [j1, j2]
+    cases hs : t.isStep <;> cases hp : t.planar <;> cases kth <;>
+      simp only [b2i, hs, hp, Bool.false_eq_true, if_false, if_true, s1', s2', a1', a2', ChanArgs.ofTuple, C02_kernel_loc_offset] <;>
+      (split_ifs <;> (ext <;> simp <;> first | omega | (simp_all; done)))
+  refine ⟨main, fun x y => ?_⟩
+  rw [main]; exact (C02_channel_view (chanAddr n) v x y).1
+
+example : chanViewMem false ⟨false, false, 3, 2⟩ (fun k => k * 2) 1 { base := 10, xs := 6, ys := 40, w := 5, h := 4 }
+      = { base := 12, xs := 6, ys := 40, w := 5, h := 4 }
+    ∧ chanViewMem true ⟨false, true, 3, 1⟩ (fun k => k * 8192) 2 { base := 0, xs := 1, ys := 7, w := 5, h := 4 }
+      = { base := 16384, xs := 1, ys := 7, w := 5, h := 4 } := by decide
+
+/-- the channel view's pixel lies INSIDE the source pixel (interleaved homogeneous pixels of `nch` channels of `c` memory
+    units): channel views add no bytes to the access set of the source view (used by C01) -/
+theorem C02_channel_view_in_pixel (kth : Bool) (t : ChanSrc) (n : Int) (v : View) (x y : Int)
+    (hadj : t.isStep = false → (t.planar = true ∨ t.nch = 1) → v.xs = t.chanSize)
+    (hc : 0 < t.chanSize) (hn0 : 0 ≤ n) (hn : n < t.nch) :
+    v.addr x y ≤ (chanViewMem kth t (fun k => k * t.chanSize) n v).addr x y
+    ∧ (chanViewMem kth t (fun k => k * t.chanSize) n v).addr x y + t.chanSize ≤ v.addr x y + t.nch * t.chanSize := by
+  rw [(C02_channel_view_map kth t (fun k => k * t.chanSize) n v hadj).2 x y]
+  have h1 : 0 ≤ n * t.chanSize := Int.mul_nonneg hn0 (by omega)
+  have h2 : (n + 1) * t.chanSize ≤ t.nch * t.chanSize := Int.mul_le_mul_of_nonneg_right (by omega) (by omega)
+  have e : (n + 1) * t.chanSize = n * t.chanSize + t.chanSize := by ring
+  constructor <;> omega
+
+private theorem apply_nthChannel (t : Xform) (off : Int) (v : View) : t.apply (nthChannel off v) = nthChannel off (t.apply v) := by
+  cases t <;> simp only [Xform.apply, nthChannel, View.addr] <;> (ext <;> simp <;> ring)
+
+private theorem applyAll_nthChannel (ts : List Xform) (off : Int) (v : View) :
+    applyAll ts (nthChannel off v) = nthChannel off (applyAll ts v) := by
+  induction ts generalizing v with
+  | nil => rfl
+  | cons t ts ih =>
+    show applyAll ts (t.apply (nthChannel off v)) = nthChannel off (applyAll ts (t.apply v))
+    rw [apply_nthChannel, ih]
+
+private theorem validAll_append (ts0 ts1 : List Xform) (v : View) :
+    validAll (ts0 ++ ts1) v ↔ validAll ts0 v ∧ validAll ts1 (applyAll ts0 v) := by
+  induction ts0 generalizing v with
+  | nil => simp [validAll, applyAll]
+  | cons t ts ih =>
+    simp only [List.cons_append, validAll, ih (t.apply v), and_assoc]
+    rfl
+
+private theorem validAll_nthChannel (ts : List Xform) (off : Int) (v : View) : validAll ts (nthChannel off v) ↔ validAll ts v := by
+  induction ts generalizing v with
+  | nil => simp [validAll]
+  | cons t ts ih =>
+    simp only [validAll, apply_nthChannel, ih]
+    have : t.Valid (nthChannel off v) ↔ t.Valid v := by cases t <;> simp [Xform.Valid, nthChannel]
+    rw [this]
+
+/-- **channel views inside any composition**: transformations `ts0`, then `nth_channel_view(·, n)` / `kth_channel_view<n>`,
+    then transformations `ts1`: pixel (x,y) of the result is channel `n` of the source pixel at the coordinates the documented
+    maps of `ts0 ++ ts1` give (so channel views commute with every coordinate transformation) -/
+theorem C02_channel_view_compose (kth : Bool) (t : ChanSrc) (chanAddr : Int → Int) (n : Int) (ts0 ts1 : List Xform) (v : View)
+    (hadj : t.isStep = false → (t.planar = true ∨ t.nch = 1) → (applyMemAll ts0 v).xs = t.chanSize)
+    (hv : validAll (ts0 ++ ts1) v) (hw : 0 ≤ v.w) (hh : 0 ≤ v.h) (x y : Int)
+    (hr : (applyMemAll ts1 (chanViewMem kth t chanAddr n (applyMemAll ts0 v))).InRange x y) :
+    (applyMemAll ts1 (chanViewMem kth t chanAddr n (applyMemAll ts0 v))).addr x y
+      = v.addr (phiAll (ts0 ++ ts1) v (x, y)).1 (phiAll (ts0 ++ ts1) v (x, y)).2 + chanAddr n
+    ∧ v.InRange (phiAll (ts0 ++ ts1) v (x, y)).1 (phiAll (ts0 ++ ts1) v (x, y)).2 := by
+  have e1 : applyMemAll ts1 (chanViewMem kth t chanAddr n (applyMemAll ts0 v)) = nthChannel (chanAddr n) (applyMemAll (ts0 ++ ts1) v) := by
+    rw [(C02_channel_view_map kth t chanAddr n _ hadj).1]
+    simp only [C02_applyAll_eq, applyAll_nthChannel]
+    simp [applyAll, List.foldl_append]
+  rw [e1] at hr ⊢
+  have hr' : (applyMemAll (ts0 ++ ts1) v).InRange x y := hr
+  obtain ⟨c1, c2⟩ := C02_compose (ts0 ++ ts1) v hv hw hh x y hr'
+  exact ⟨by rw [(C02_channel_view _ _ x y).1, c1], c2⟩
+
+example : validAll ([.rot90cw] ++ [.subsample 2 1]) { base := 0, xs := 3, ys := 20, w := 5, h := 4 }
+    ∧ (applyMemAll [.subsample 2 1] (chanViewMem false ⟨true, false, 3, 1⟩ (fun k => k) 2 (applyMemAll [.rot90cw] { base := 0, xs := 3, ys := 20, w := 5, h := 4 }))).InRange 1 2
+    ∧ (applyMemAll [.subsample 2 1] (chanViewMem false ⟨true, false, 3, 1⟩ (fun k => k) 2 (applyMemAll [.rot90cw] { base := 0, xs := 3, ys := 20, w := 5, h := 4 }))).addr 1 2
+        = (1 * 20 + 2 * 3) + 2 := by decide
+
+/-! ### dereference adaptors -/
+
+/-- **`color_converted_view` is a dereference adaptor**: whatever coordinate transformations are applied before (`ts0`) and after
+    (`ts1`) it, reading pixel (x,y) gives `cc` applied to the source pixel at the documented coordinates; the locator (addresses,
+    steps, dimensions) is the one of the plain transformed view -/
+theorem C02_deref_adaptor {α β γ : Type} (cc : β → γ) (d : DView α β) (ts0 ts1 : List Xform) (m : Int → α)
+    (hv : validAll (ts0 ++ ts1) d.v) (hw : 0 ≤ d.v.w) (hh : 0 ≤ d.v.h) (x y : Int)
+    (hr : ((colorConverted cc (d.applyAll ts0)).applyAll ts1).v.InRange x y) :
+    ((colorConverted cc (d.applyAll ts0)).applyAll ts1).read m x y
+      = cc (d.read m (phiAll (ts0 ++ ts1) d.v (x, y)).1 (phiAll (ts0 ++ ts1) d.v (x, y)).2)
+    ∧ ((colorConverted cc (d.applyAll ts0)).applyAll ts1).v = applyMemAll (ts0 ++ ts1) d.v
+    ∧ d.v.InRange (phiAll (ts0 ++ ts1) d.v (x, y)).1 (phiAll (ts0 ++ ts1) d.v (x, y)).2 := by
+  have e : ((colorConverted cc (d.applyAll ts0)).applyAll ts1).v = applyMemAll (ts0 ++ ts1) d.v := by
+    simp [DView.applyAll, colorConverted, applyMemAll, List.foldl_append]
+  rw [e] at hr
+  obtain ⟨c1, c2⟩ := C02_compose (ts0 ++ ts1) d.v hv hw hh x y hr
+  refine ⟨?_, e, c2⟩
+  simp only [DView.read, e, c1]
+  rfl
+
+/-- `color_converted_view<DstP>` with `DstP` = the source's value type returns the source view: nothing is converted
+    (`_color_converted_view_type<SrcView,CC,DstP,DstP>::make`), even for a user-supplied converter -/
+theorem C02_color_converted_same_type {α β : Type} (cc : β → β) (d : DView α β) (m : Int → α) (x y : Int) :
+    (colorConvertedSame cc d).read m x y = d.read m x y := rfl
 
 end GilVerif.Props.C02
